@@ -266,7 +266,8 @@ class C16(Check):
 
     @staticmethod
     def variants():
-        return [ABSENT, None, 5, [], {}, True, "", "zz", "abc", "AB cd", "aa", "root", "sgx_root"]
+        return [ABSENT, None, 5, 0, False, [], {}, True, "", " ", "\n", " \t\r\n ", "zz", "abc", "AB cd", "aa", "root",
+                "sgx_root"]
 
     # ---- (a) top level ------------------------------------------------------------------------
     def run_top(self, case, stats, vs):
